@@ -1,7 +1,7 @@
 /-
   C13 — DAG model: layers are barriers, unknown names skipped, failure stops the rest.
 -/
-import GV.Orch.AllConform
+import GV.Orch.Conf.ExecuteDAGModel
 import GV.Orch.Sched
 namespace GV.Props.C13
 open GV.Orch GV.Generated.Orch
